@@ -588,6 +588,38 @@ func (c *Ctx) RuleResolve() *Result {
 		} else {
 			res.ok(key, c.P.InstrPos(stat), "from the success side of the probe the function returns without probing again")
 		}
+		// a root is only reported after the probe found regex-assembly in it
+		if ev != nil {
+			res.Instances++
+			key2 := load.FnName(fn) + ":root reported only after a successful probe"
+			probed := func(cond ssa.Value, val bool) bool {
+				b, ok := cond.(*ssa.BinOp)
+				if !ok {
+					return false
+				}
+				x, trueMeansNil, isTest := nilTest(b)
+				return isTest && x == ev && val == trueMeansNil
+			}
+			unproven := ""
+			allInstrs(fn, func(in ssa.Instruction) {
+				r, ok := in.(*ssa.Return)
+				if !ok || unproven != "" {
+					return
+				}
+				op := retErrOperand(r)
+				if op == nil || !isNilConst(op) {
+					return // failure exits
+				}
+				if !c.guardedByEdges(r, probed) {
+					unproven = c.P.InstrPos(r)
+				}
+			})
+			if unproven != "" {
+				res.bad(key2, c.P.InstrPos(stat), "the function reports a root at "+unproven+" on a path where the probe for regex-assembly did not succeed (a shortcut on the text of the path): a directory that merely has regex-assembly in its name, or no such directory at all, is taken for the CRS root and the rewriting commands work outside the tree")
+			} else {
+				res.ok(key2, c.P.InstrPos(stat), "every successful return is reached only through the success side of the os.Stat probe")
+			}
+		}
 	}
 	// (r1') every path below the assembly directory is built from the resolved file name
 	if nameField != nil {
